@@ -35,6 +35,10 @@ func genC04(seed uint64, tier string) *plan.Plan {
 	pl := &plan.Plan{Cfg: map[string]int64{}}
 	pl.Cfg["mode"] = int64(r.IntN(3))
 	pl.Cfg["path"] = int64(r.IntN(2))
+	if r.IntN(5) == 0 {
+		genC04Concurrent(r, pl)
+		return pl
+	}
 	nClients := 2 + r.IntN(3)
 	doms := []uint32{7, 8}
 	if r.IntN(4) == 0 {
@@ -140,6 +144,10 @@ func genC04(seed uint64, tier string) *plan.Plan {
 }
 
 func runC04(pl *plan.Plan, out *plan.Outcome) {
+	if cfgOr(pl, "path", 0) == 2 {
+		runC04Concurrent(pl, out)
+		return
+	}
 	env := newEnv(pl, out, keepLogFlag)
 	mode := int(cfgOr(pl, "mode", 0))
 	tcp := cfgOr(pl, "path", 0) == 1
@@ -256,4 +264,183 @@ func runC04(pl *plan.Plan, out *plan.Outcome) {
 	out.Add("probe.data_after_replacement_or_invalidation", int64(interesting))
 	out.Nontrivial = interesting > 0
 	out.Sample = map[string]any{"mode": mode, "tcp": tcp, "messages": len(pl.Ops), "delivered": len(got)}
+}
+
+// ---- path 2: a template is redefined while data sets for it are being decoded ------------------
+//
+// Task A decodes data sets of many records for one (domain, id); task B keeps re-sending the
+// template, alternating between two versions whose fields have the same widths but are different
+// elements. Under the controlled scheduler (with preemptions inside the decoder) every delivered
+// data message must be entirely decoded with ONE version that was in force at some point during
+// the call. Plan ops: {K:"tmplv", T:1, A:version}; {K:"datav", T:0, B:records, C:seed};
+// Cfg c_w<i>: width class, c_a<i>/c_b<i>: catalogue indices of field i in version 0 / 1.
+
+func genC04Concurrent(r *rand.Rand, pl *plan.Plan) {
+	pl.Cfg["path"] = 2
+	// group fixed-width catalogue elements by width
+	byW := map[uint16][]int{}
+	for i, sp := range catalog {
+		if sp.Len != entities.VariableLength && sp.Len > 0 && sp.Len <= 16 {
+			byW[sp.Len] = append(byW[sp.Len], i)
+		}
+	}
+	widths := []uint16{1, 2, 4, 8, 16, 6}
+	nf := 2 + r.IntN(4)
+	pl.Cfg["c_fields"] = int64(nf)
+	for i := 0; i < nf; i++ {
+		w := widths[r.IntN(len(widths))]
+		g := byW[w]
+		a := g[r.IntN(len(g))]
+		b := g[r.IntN(len(g))]
+		for b == a {
+			b = g[r.IntN(len(g))]
+		}
+		pl.Cfg[fmt.Sprintf("c_a%d", i)] = int64(a)
+		pl.Cfg[fmt.Sprintf("c_b%d", i)] = int64(b)
+	}
+	pl.Ops = append(pl.Ops, plan.Op{K: "tmplv", T: 1, A: 0})
+	n := 4 + r.IntN(10)
+	for i := 0; i < n; i++ {
+		if r.IntN(2) == 0 {
+			pl.Ops = append(pl.Ops, plan.Op{K: "tmplv", T: 1, A: int64(r.IntN(2))})
+		} else {
+			pl.Ops = append(pl.Ops, plan.Op{K: "datav", T: 0, B: int64(2 + r.IntN(30)), C: int64(r.Uint64() >> 1)})
+		}
+	}
+	genSchedule(r, pl, 8, 3000)
+}
+
+func runC04Concurrent(pl *plan.Plan, out *plan.Outcome) {
+	env := newEnv(pl, out, keepLogFlag)
+	mode := int(cfgOr(pl, "mode", 0))
+	cp, err := collector.InitCollectingProcess(collector.CollectorInput{Address: "10.0.0.1:4739", Protocol: "tcp", MaxBufferSize: 65535, DecodingMode: modeNames[mode]})
+	if err != nil {
+		out.Trouble = err.Error()
+		return
+	}
+	nf := int(cfgOr(pl, "c_fields", 2))
+	var vers [2]gTemplate
+	for v := 0; v < 2; v++ {
+		t := gTemplate{Dom: 7, ID: 256}
+		for i := 0; i < nf; i++ {
+			key := fmt.Sprintf("c_a%d", i)
+			if v == 1 {
+				key = fmt.Sprintf("c_b%d", i)
+			}
+			idx := int(cfgOr(pl, key, 0))
+			if idx < 0 || idx >= len(catalog) {
+				idx = 0
+			}
+			sp := catalog[idx]
+			t.Fields = append(t.Fields, gField{F: sp.field(), Known: true, Spec: sp, Width: sp.Len})
+		}
+		vers[v] = t
+	}
+	fieldsOfV := func(v int) []mField {
+		var fs []mField
+		for _, f := range vers[v].Fields {
+			fs = append(fs, mField{Ent: f.Spec.Ent, ID: f.Spec.ID, Known: true, Type: f.Spec.Type, Name: f.Spec.Name, Width: f.Spec.Len})
+		}
+		return fs
+	}
+	var stamp int64
+	next := func() int64 { stamp++; return stamp } // tasks run one at a time under the scheduler
+	type tmplEv struct {
+		v         int
+		call, ret int64
+	}
+	var tevs []tmplEv
+	env.Go("consumer", func() {
+		for {
+			var ok bool
+			Block("consume", func() { _, ok = <-cp.GetMsgChan() })
+			if !ok {
+				return
+			}
+		}
+	})
+	done := make(chan struct{}, 2)
+	hdr := ipfixref.Header{}
+	mixes := 0
+	env.Go("B", func() {
+		defer func() { done <- struct{}{} }()
+		for _, op := range pl.Ops {
+			if op.K != "tmplv" {
+				continue
+			}
+			v := int(op.A) & 1
+			ev := tmplEv{v: v, call: next()}
+			idx := len(tevs)
+			tevs = append(tevs, ev)
+			var derr error
+			Block("decode", func() { _, derr = cp.VerifDecodePacket(vers[v].templateMsg(hdr), "10.0.1.2:999") })
+			tevs[idx].ret = next()
+			if derr != nil {
+				env.Violate("rejected-decodable", "template", "valid template (version %d) rejected: %v", v, derr)
+			}
+		}
+	})
+	env.Go("A", func() {
+		defer func() { done <- struct{}{} }()
+		for i, op := range pl.Ops {
+			if op.K != "datav" {
+				continue
+			}
+			r := rand.New(rand.NewPCG(uint64(op.C), 0xc04c))
+			body := vers[0].dataBody(r, int(op.B), 0, false, false)
+			msgb := vers[0].dataMsg(hdr, body)
+			call := next()
+			var msg *entities.Message
+			var derr error
+			Block("decode", func() { msg, derr = cp.VerifDecodePacket(msgb, "10.0.1.1:999") })
+			ret := next()
+			env.Count("c04.concurrent_data_decodes", 1)
+			if derr != nil || msg == nil {
+				continue // the template may not exist yet: an error is acceptable here
+			}
+			d := captureMsg(msg)
+			// versions that were in force at some point during [call, ret]
+			acc := map[int]bool{}
+			last := -1
+			for _, ev := range tevs {
+				if ev.ret != 0 && ev.ret < call {
+					last = ev.v
+				}
+				if ev.call <= ret && (ev.ret == 0 || ev.ret >= call) {
+					acc[ev.v] = true
+					mixes++
+				}
+			}
+			if last >= 0 {
+				acc[last] = true
+			}
+			okAny := false
+			var why string
+			for v := range acc {
+				recs, _, rerr := ipfixref.DecodeRecords(body, (&colModel{}).refFields(fieldsOfV(v)))
+				if rerr != nil {
+					continue
+				}
+				if m := matchData(mode, fieldsOfV(v), recs, d); m == "" {
+					okAny = true
+				} else if why == "" {
+					why = m
+				}
+			}
+			if !okAny {
+				env.Violate("mixed-templates", "", "op %d: a data set of %d records was delivered, but it is not the decode of the set under any single template version in force during the call (%v): %s", i, len(d.Records), acc, why)
+			}
+		}
+	})
+	env.Go("driver", func() {
+		Block("join", func() { <-done })
+		Block("join", func() { <-done })
+		cp.CloseMsgChan()
+	})
+	if res := env.Run(); res != "done" && out.Trouble == "" {
+		out.Trouble = "run ended: " + res
+	}
+	out.Add("probe.data_decode_overlapping_template_change", int64(mixes))
+	out.Nontrivial = mixes > 0
+	out.Sample = map[string]any{"path": "concurrent redefinition", "fields": nf, "ops": len(pl.Ops)}
 }
